@@ -38,7 +38,12 @@
 (*    "omitted" is always allowed for one; on other stream states either   *)
 (*    form is allowed;                                                     *)
 (*  - a public attribute is sent when there is no whitelist or the         *)
-(*    whitelist names it; otherwise (statement silent) anything goes.      *)
+(*    whitelist names it; otherwise (statement silent) anything goes;      *)
+(*  - class "stime" is a public attribute of the ad that is itself named   *)
+(*    ServerTime (a forwarded ad): with the ServerTime option the sender   *)
+(*    injects a ServerTime item and may send the ad's own one as well or   *)
+(*    leave it out (statement silent); whatever it does, the count in      *)
+(*    front of the ad is the number of items that follow (CountIsItems).   *)
 (*                                                                         *)
 (* Bug members (known wrong designs; non-vacuity self-tests only):         *)
 (*   "IncludeByDefault"   private attributes are sent unless NoPrivate     *)
@@ -57,6 +62,9 @@
 (*                        boundary                                         *)
 (*   "RawDropsSecret"     the raw-text receiver does not read the secret   *)
 (*                        after a marker                                   *)
+(*   "CountNotItems"      with the ServerTime option the sender drops the  *)
+(*                        ad's own ServerTime attribute from the items but *)
+(*                        still counts it                                  *)
 (***************************************************************************)
 EXTENDS Integers, Sequences, FiniteSets, TLC
 
@@ -73,7 +81,8 @@ CONSTANTS
   Bug
 
 FixedPrivate == {"capability", "childclaimids", "claimid", "claimidlist", "claimids", "transferkey"}
-Classes == {"pubA", "pubB", "prefix"} \cup FixedPrivate   \* pubA: named by every whitelist; pubB: by none
+Classes == {"pubA", "pubB", "stime", "prefix"} \cup FixedPrivate
+  \* pubA: named by every whitelist; pubB: by none; stime: the ad's own attribute called ServerTime
 
 \* option bits of PutClassAdConfig.Options
 BNoTypes == 0  BNoPrivate == 1  BServerTime == 2  BNonBlocking == 3  BNoExpandWL == 4  BIncludePrivate == 5
@@ -111,7 +120,7 @@ TooOld(c) == c.ver = "below" /\ "NoVersionGate" \notin Bug
 
 Named(a, c) == CASE c.wl = "none" -> TRUE
                  [] c.wl = "pub"  -> a.cls = "pubA"
-                 [] c.wl = "priv" -> a.cls # "pubB"
+                 [] c.wl = "priv" -> a.cls \notin {"pubB", "stime"}
 
 \* forms in which an attribute may travel on a stream in state st
 SendForms(a, st) ==
@@ -125,12 +134,14 @@ Outcomes(a, c) ==
        ELSE IF ~OptIn(c) THEN {"omitted"}
        ELSE IF a.cls = "prefix" /\ TooOld(c) THEN {"omitted"}
        ELSE {"omitted"} \cup SendForms(a, c.st)
+  ELSE IF a.cls = "stime" /\ Bit(c.opts, BServerTime) THEN {"omitted"} \cup SendForms(a, c.st)
   ELSE IF Named(a, c) THEN SendForms(a, c.st)
   ELSE {"omitted"} \cup SendForms(a, c.st)
 
 -----------------------------------------------------------------------------
 (* Layout *)
-Fld(k, a) == [k |-> k, a |-> a]     \* k in count,item,marker,secret,type; a = attribute index (0: none)
+Fld(k, a) == [k |-> k, a |-> a, n |-> 0]  \* k in count,item,marker,secret,type; a = attribute index (0: none)
+CountFld(n) == [k |-> "count", a |-> 0, n |-> n]   \* n = the expression count written in front of the ad
 
 RECURSIVE ItemFields(_, _)
 ItemFields(o, i) ==
@@ -141,9 +152,13 @@ ItemFields(o, i) ==
 
 Emitted(o) == {i \in 1..Len(o) : o[i] # "omitted"}
 
-BareFields(o, st, suppress) ==
-  <<Fld("count", 0)>> \o (IF st THEN <<Fld("item", 0)>> ELSE <<>>) \o ItemFields(o, 1)
-     \o (IF suppress THEN <<>> ELSE <<Fld("type", 0), Fld("type", 0)>>)
+NItems(fs) == Cardinality({j \in 1..Len(fs) : fs[j].k \in {"item", "marker"}})
+
+\* ownDropped: the ad's own ServerTime attribute was left out in favour of the injected one
+BareFields(o, st, suppress, ownDropped) ==
+  LET items == (IF st THEN <<Fld("item", 0)>> ELSE <<>>) \o ItemFields(o, 1)
+      n     == NItems(items) + (IF "CountNotItems" \in Bug /\ st /\ ownDropped THEN 1 ELSE 0)
+  IN <<CountFld(n)>> \o items \o (IF suppress THEN <<>> ELSE <<Fld("type", 0), Fld("type", 0)>>)
 
 \* a field is inside protected frames iff the stream encrypts while it is written
 Prot(f, s) == s = "enc" \/ (s = "keyedClear" /\ f.k = "secret")
@@ -156,9 +171,10 @@ FrameOf(fs, i, s, plan) ==
 Parts(f, plan) == IF plan = "split" /\ f.k # "count" THEN 2 ELSE 1
 
 Layout(o, st, c, plan) ==
-  LET fs == BareFields(o, st, Bit(c.opts, BNoTypes)) IN
+  LET fs == BareFields(o, st, Bit(c.opts, BNoTypes),
+                       \E i \in 1..Len(o) : ad[i].cls = "stime" /\ o[i] = "omitted") IN
   [i \in 1..Len(fs) |->
-     [k |-> fs[i].k, a |-> fs[i].a, prot |-> Prot(fs[i], c.st),
+     [k |-> fs[i].k, a |-> fs[i].a, n |-> fs[i].n, prot |-> Prot(fs[i], c.st),
       fr |-> FrameOf(fs, i, c.st, plan), parts |-> Parts(fs[i], plan)]]
 
 RECURSIVE SumParts(_, _)
@@ -192,7 +208,7 @@ ReadItems(r, w, n, acc) ==
                                              !.attrs = IF f.k = "item" THEN Append(@, f.a) ELSE @])
 
 Consume(r, w, s) ==
-  LET n0   == Cardinality({j \in 1..Len(w) : w[j].k \in {"item", "marker"}})
+  LET n0   == w[1].n
       n    == IF r = "skip" /\ "SkipOneFewer" \in Bug /\ n0 > 0 THEN n0 - 1 ELSE n0
       it   == ReadItems(r, w, n, [i |-> 2, used |-> 0, attrs |-> <<>>, ok |-> TRUE])
       t1   == it.i
@@ -253,6 +269,7 @@ ReceiverReassembles ==
                /\ Cardinality(Emitted(out)) + (IF stime THEN 1 ELSE 0) = Len(x.attrs)
 
 (* C08 *)
+CountIsItems == phase = "put" => wire[1].n = NItems(wire)
 SameConsumption ==
   phase = "put" =>
     LET p == Res("parse")  w == Res("raw")  k == Res("skip")  total == SumParts(wire, 1) IN
@@ -265,6 +282,8 @@ AttrSetPreserved ==
     p.ok =>
     /\ p.attrs = Res("raw").attrs
     /\ \A i \in 1..Len(ad) :
-         ~PrivateTrue(ad[i]) /\ Named(ad[i], cfg) => \E j \in 1..Len(p.attrs) : p.attrs[j] = i
+         /\ ~PrivateTrue(ad[i]) /\ Named(ad[i], cfg)
+         /\ ~(ad[i].cls = "stime" /\ Bit(cfg.opts, BServerTime))   \* may be replaced by the injected item
+         => \E j \in 1..Len(p.attrs) : p.attrs[j] = i
     /\ ~OptInTrue(cfg) => \A j \in 1..Len(p.attrs) : p.attrs[j] = 0 \/ ~PrivateTrue(ad[p.attrs[j]])
 =============================================================================
